@@ -72,14 +72,24 @@ def custom_complex(ts):
     return npx._map(lambda t: SymC(Sym(CUR(lift(t))), Sym(CUI(lift(t)))), ts)
 
 
+def custom_int(ts):
+    return np.full(len(ts), 3)              # an integer-typed source (a gate / flag array)
+
+
 def mk_stream(P, asc, custom, seed=42):
+    """custom: None | 'real' | 'complex' (added last) | 'complex_first' (added before the real-valued cosine source) |
+    'int' (an integer-typed array source added last)"""
     s = DS.DataStream(sample_rate=P['sr'], fch1=P['fch1'], ascending=asc, t_start=P['t0'], seed=seed)
     s.add_noise(P['v_mean'], P['v_std'])
+    if custom == 'complex_first':
+        s.add_signal(custom_complex)
     s.add_constant_signal(P['f_start'], P['drift'], P['level'], P['phase'])
     if custom == 'real':
         s.add_signal(custom_real)
     elif custom == 'complex':
         s.add_signal(custom_complex)
+    elif custom == 'int':
+        s.add_signal(custom_int)
     return s
 
 
@@ -92,8 +102,10 @@ def spec_sample(P, asc, custom, t, draw, seed=42):
     im = RV(0)
     if custom == 'real':
         re = re + CU(t)
-    elif custom == 'complex':
+    elif custom in ('complex', 'complex_first'):
         re, im = re + CUR(t), CUI(t)
+    elif custom == 'int':
+        re = re + RV(3)
     return re, im
 
 
@@ -425,13 +437,16 @@ def replay_stream(p):
     from setigen.voltage import data_stream as ds
     asc, custom, comp, ops = p['asc'], p['custom'], p['comp'], p.get('ops', [])
     sr, fch1, t0, f0, d, lvl, ph = 1000.0, 100.0, 2.5, 180.0, 30.0, 1.7, 0.3
-    cf = (lambda ts: 0.25 * ts ** 2) if custom == 'real' else ((lambda ts: np.sin(ts) + 1j * ts) if custom == 'complex' else None)
+    cf = {'real': lambda ts: 0.25 * ts ** 2, 'complex': lambda ts: np.sin(ts) + 1j * ts, 'complex_first': lambda ts: np.sin(ts) + 1j * ts,
+          'int': lambda ts: np.full(len(ts), 3)}.get(custom)
 
     def mk(seed=9):
         s = ds.DataStream(sample_rate=sr, fch1=fch1, ascending=asc, t_start=t0, seed=seed)
         s.add_noise(0.5, 2.0)
+        if custom == 'complex_first':
+            s.add_signal(cf)
         s.add_constant_signal(f0, d, lvl, ph)
-        if cf:
+        if cf and custom != 'complex_first':
             s.add_signal(cf)
         return s
 
@@ -537,6 +552,8 @@ def main():
     for asc in (True, False):
         for custom in (None, 'real', 'complex'):
             jobs.append(('job_stream', (asc, N if custom != 'complex' else min(N, 4), custom)))
+        for custom in ('complex_first', 'int'):
+            jobs.append(('job_stream', (asc, 3, custom)))
         seqs = [(o,) for o in OPS] + list(itertools.product(OPS, repeat=2))
         for ops in seqs:
             for (n1, n2) in ((2, 2), (1, 3)) if ck.thorough else ((2, 2),):
